@@ -265,6 +265,11 @@ func (r *vQRun) apply(op vQOp) {
 		r.out.Linef("op done %d %d", op.a, op.b)
 		d := r.dones[op.a]
 		delete(r.dones, op.a)
+		if d == nil {
+			// a corpus script completes a request the implementation never handed over (it diverged from the model earlier,
+			// e.g. refused the request): nothing to call; the model answers `bad-step`, the difference is reported
+			break
+		}
 		for i, id := range r.handed {
 			if id == op.a {
 				r.handed = append(r.handed[:i:i], r.handed[i+1:]...)
